@@ -455,8 +455,7 @@ class Session:
                         tracked[sub[: -len("-backend-tracked.json")]] = _read_json(p)
                     elif sub == "spec-hashes.json":
                         hashes = _read_json(p)
-                    else:
-                        unexpected.append(rel)
+                    # any other file under .gwf/ is gwf's private business (lock files, caches ...): not a workflow file, not a log
                     continue
                 st = os.stat(p)
                 sec = st.st_mtime_ns // 10**9
